@@ -174,6 +174,7 @@ func (db *DB) getMems() (e, f *memDB) {
 	if db.frozenMem != nil {
 		db.frozenMem.incref()
 	}
+	verifAt("r.getmems", db.frozenMem != nil)
 	return db.mem, db.frozenMem
 }
 
